@@ -19,6 +19,7 @@ RULE = (
     "normalised span trees, sibling interleaving being schedule dependent) and exactly one shutdown. The emission "
     "sites hit (event type x nested or not) are tabulated. Non-trivial: baseline stream has >= 4 events; distinct = "
     "(program shape, variant, fault position class)."
+    " Two processors failing on the same event with healthy recorders before, between and behind them (layouts FFH, HFHFH, FHFH). Multi-target gates whose decision names END next to real targets."
     ' Also top-level runner.map over 0-3 items (empty maps included) with a processor failing on every event, on one event or at shutdown, next to a healthy one, both registration orders.'
 )
 ASSUMPTIONS = ["processors raise Exception subclasses (the dispatcher's contract); BaseException is out of scope"]
@@ -144,6 +145,38 @@ def one_program(ctx, fam, i):
             # async faulty processor next to a healthy async one that is still suspended (>= 3 loop turns) when the
             # faulty one raises: at the very last event, at the first, on every event; both registration orders
             plans += [(kind, k, first) for kind, k in (("k", N - 1), ("k", 0), ("every", None)) for first in (True, False)]
+        if N:
+            # TWO processors failing on the SAME event (every event / one index), healthy recorders before, between and
+            # behind them: the dispatcher must go on behind the second failure as it does behind the first
+            mid = N // 2
+            for kind, k in (("every", None), ("k", mid), ("k", 0), ("k", N - 1)):
+                for layout in ("FFH", "HFHFH", "FHFH"):
+                    a_cls = runner == "async" and rng.random() < 0.5
+                    Fs = [(AFaulty if a_cls else Faulty)(k=k, every=(kind == "every")) for _ in range(layout.count("F"))]
+                    Hs = [Rec(f"h{j}") for j in range(layout.count("H"))]
+                    fi, hi = iter(Fs), iter(Hs)
+                    procs = [next(fi) if c == "F" else next(hi) for c in layout]
+                    o = run_with(procs)
+                    ctx.obs["fault_runs"] += 1
+                    ctx.obs["two_faulty_runs"] += 1
+                    case = {"family": fam["family"], "spec": spec, "inputs": inputs, "runner": runner, "fault": kind, "k": k, "layout": layout, "node_failure": sorted(fail) if fail else None}
+                    if o.deadlock or o.inconclusive:
+                        ctx.inconc(o.inconclusive or "deadlock")
+                        continue
+                    got, inv = outcome(o)
+                    if got != b_out or inv != b_inv:
+                        ctx.violation("C13:outcome-changed:two-faulty", f"{runner}: two processors raising at {kind} {k} (layout {layout}) changed the run", case)
+                        continue
+                    for j in range(len(Hs)):
+                        ctx.obs["streams_compared"] += 1
+                        hev = rt.events_of(o.rec, f"h{j}")
+                        if monitors.span_tree(hev) != b_tree:
+                            ctx.violation(
+                                "C13:healthy-stream-incomplete:two-faulty",
+                                f"{runner}: healthy processor #{j} of layout {layout} received {len(hev)} events (baseline {N}) when two others raised at {kind}{'' if k is None else ' ' + str(k)}",
+                                case,
+                            )
+                            break
         for kind, k, forced_first in plans:
             use_async_cls = runner == "async" and (forced_first is not None or rng.random() < 0.5)
             F = (AFaulty if use_async_cls else Faulty)(k=k, every=(kind == "every"), at_shutdown=(kind == "shutdown"))
@@ -243,6 +276,19 @@ def top_level_map(ctx, i):
     ctx.case({"f": "runner.map", "s": gen.shape_of(inner), "n": n_items}, True)
 
 
+def multi_end_program(cached: bool) -> dict:
+    """A fan-out gate (multi_target) whose decision names one branch AND END, or both branches, by a selector input."""
+
+    def fn(nm, params, outs):
+        return {"k": "fn", "name": nm, "params": [{"n": p} for p in params], "outs": outs}
+
+    gate = {"k": "route", "name": "fan", "params": [{"n": "s0"}], "targets": ["small", "big", "END"], "multi": True, "table": [["big", "END"], ["small", "big"], ["END"], ["END", "small"]], "open": False}
+    if cached:
+        gate["cache"] = True
+    spec = {"name": "fanend", "nodes": [fn("load", ["i0"], ["x"]), gate, fn("small", ["x"], ["so"]), fn("big", ["x"], ["bo"])]}
+    return spec
+
+
 def run(ctx):
     n = 30 if ctx.tier == "quick" else 700
     core.WARM_P = 0.0
@@ -251,6 +297,11 @@ def run(ctx):
         one_program(ctx, {"family": c["family"], "spec": c["spec"], "inputs": c["inputs"]}, 99)
         ctx.case("r2")
         return
+    if ctx.shard[0] == 0:
+        for sel in range(4):
+            for cached in (False, True):
+                one_program(ctx, {"family": "cached" if cached else "gated", "spec": multi_end_program(cached), "inputs": {"i0": "run:i0", "s0": sel}}, 99)
+                ctx.obs["multi_target_end_programs"] += 1
     for i in range(n):
         fam = families.rich(ctx.rng)
         one_program(ctx, fam, i)
